@@ -39,8 +39,12 @@ def judge_pair(case) -> Verdict:
     if A.ambiguous(bottom, top):
         v.exclude("port-universe-sliver")
         return v
-    t = A.build_ace(top, platform)
-    b = A.build_ace(bottom, platform)
+    nr = case.get("nr") or [False] * 4
+    if len(nr) != 4 or not all(isinstance(x, bool) for x in nr):
+        raise Invalid()
+    # the numeric rendering switches of either entry are spelling only
+    t = A.build_ace(top, platform, protocol_nr=nr[0], port_nr=nr[1])
+    b = A.build_ace(bottom, platform, protocol_nr=nr[2], port_nr=nr[3])
     for skip in A.SKIPS:
         want = A.oracle_cover(bottom, top, skip)
         got = b.shadow_of(t, skip=skip)
@@ -86,7 +90,10 @@ def pair_st(draw, tier):
         if rec.get("flags") and draw(st.sampled_from([True, False, False])):
             rec["logs"] = [draw(st.sampled_from(["log", "log-input"]))]
             rec["lf"] = True
-    return {"top": top, "bottom": bottom, "platform": platform}
+    case = {"top": top, "bottom": bottom, "platform": platform}
+    if draw(st.sampled_from(range(3))) == 1:
+        case["nr"] = [draw(st.booleans()) for _ in range(4)]
+    return case
 
 
 # --------------------------------------------------------------------------------------- report
